@@ -14,6 +14,8 @@ import (
 	"sort"
 	"strconv"
 	"strings"
+	"sync"
+	"sync/atomic"
 	"syscall"
 	"time"
 
@@ -74,18 +76,22 @@ func socketPair() (net.Conn, net.Conn) {
 	return c0, c1
 }
 
-var tmpDir string
+var (
+	tmpDir  string
+	tmpOnce sync.Once
+	sockSeq int64
+)
 
 // underlying starts a keyring-backed ssh-agent on a unix socket.
 func underlying(ag sshagent.Agent) (string, func()) {
-	if tmpDir == "" {
+	tmpOnce.Do(func() {
 		d, err := os.MkdirTemp("", "verifconc")
 		if err != nil {
 			panic(err)
 		}
 		tmpDir = d
-	}
-	sock := filepath.Join(tmpDir, fmt.Sprintf("a%d.sock", time.Now().UnixNano()))
+	})
+	sock := filepath.Join(tmpDir, fmt.Sprintf("a%d.sock", atomic.AddInt64(&sockSeq, 1)))
 	l, err := net.Listen("unix", sock)
 	if err != nil {
 		panic(err)
